@@ -25,11 +25,17 @@ Bind  == {"post", "redirect"}
 
 \* endpoint: the SP publishes an assertion-consumer endpoint for the arrival binding, or only for the other one
 Scn == [irt : Irt, sirt : Sirt, dest : Dest, aud : Aud, recip : Recip, allow : BOOLEAN,
-        conv : BOOLEAN, regex : BOOLEAN, binding : Bind, enc : BOOLEAN, endpoint : {"configured", "otherBindingOnly"}]
+        conv : BOOLEAN, regex : BOOLEAN, binding : Bind, enc : BOOLEAN, endpoint : {"configured", "otherBindingOnly"},
+        \* a second bearer confirmation with the same window and InResponseTo whose Recipient is ours or somebody else's,
+        \* placed before or after the first one
+        conf2 : {"absent", "own", "foreign"}, conf2first : BOOLEAN]
 \* without an endpoint for the arrival binding only the addressing dimensions are varied
-WellFormed(s) == s.endpoint = "otherBindingOnly" =>
+WellFormed(s) == /\ s.endpoint = "otherBindingOnly" =>
                     /\ s.dest \in {"otherBinding", "patternOnly", "foreign", "none"} /\ s.recip \in {"otherBinding", "entityid", "foreign"}
                     /\ s.aud = "me" /\ ~s.enc /\ s.irt = "id1" /\ s.sirt = "id1"
+                 /\ (s.conf2 = "absent" => ~s.conf2first)
+                 /\ s.conf2 # "absent" => /\ s.endpoint = "configured" /\ s.aud = "me" /\ s.dest \in {"own", "none"} /\ ~s.regex
+                                          /\ s.irt = "id1" /\ s.sirt = "id1"
 
 \* audience restrictions as a sequence of sets of audiences
 Restr(a) == CASE a = "none" -> <<>>
@@ -72,7 +78,9 @@ Conditions ==
        ELSE IF ~scn.allow /\ ~ForMeAny THEN Reject ELSE Goto("subject")
 
 \* get_subject: _bearer_confirmed, verify_recipient; then the tail of _assertion
-RecipOK == ~scn.conv \/ scn.recip = "entityid" \/ (scn.recip = "url" /\ scn.endpoint = "configured")
+\* every confirmation that passes _bearer_confirmed has its Recipient verified (get_subject raises at the first foreign one)
+RecipOK == /\ ~scn.conv \/ scn.recip = "entityid" \/ (scn.recip = "url" /\ scn.endpoint = "configured")
+           /\ ~scn.conv \/ scn.conf2 # "foreign"
 Subject ==
     /\ pc = "subject"
     /\ LET cf == IF cameFrom = "none" /\ scn.sirt \in Outstanding THEN scn.sirt ELSE cameFrom
@@ -93,9 +101,10 @@ Solicited == scn.irt \in Outstanding /\ (scn.sirt = "none" \/ scn.sirt = scn.irt
 MustReject == \/ ~AudOK
               \/ ~DestAllowed
               \/ (scn.conv /\ scn.recip \in {"foreign", "otherBinding"})
+              \/ (scn.conv /\ scn.conf2 = "foreign")
               \/ (~scn.allow /\ ~Solicited)
 \* the fully conformant shapes (the property is an "only if"; nothing else is demanded to pass)
-MustAccept == /\ scn.endpoint = "configured" /\ AudOK /\ scn.dest \in {"own", "none"} /\ scn.recip \in {"url"} \cup (IF scn.conv THEN {"entityid"} ELSE {})
+MustAccept == /\ scn.endpoint = "configured" /\ AudOK /\ scn.conf2 # "foreign" /\ scn.dest \in {"own", "none"} /\ scn.recip \in {"url"} \cup (IF scn.conv THEN {"entityid"} ELSE {})
               /\ \/ (scn.irt = "id1" /\ scn.sirt = "id1")
                  \/ (scn.allow /\ scn.irt = "none" /\ scn.sirt = "none")
 ExpectedCameFrom == IF scn.irt \in Outstanding THEN scn.irt ELSE "unspecified"
